@@ -356,3 +356,46 @@ func H_C03_BloomLongKeys() {
 	vrt.Trace("l1", uint64(l1))
 	vrt.Reach("bloom/end")
 }
+
+// H_C03_MapPadding: the map index loader maps keys to fixed-width arrays; keys that differ only by trailing zero
+// bytes ("x", "x\x00", "x\x00\x00") and keys that share a prefix must stay distinct.
+func H_C03_MapPadding() {
+	fs := vEnv()
+	defer fs.Cleanup()
+	dir := fs.Path("t")
+	fs.MkdirAll(dir)
+	x := vrt.Byte("x")
+	var keys [][]byte
+	switch vrt.Choose("family", 2) {
+	case 0:
+		keys = [][]byte{{x}, {x, 0}, {x, 0, 0}}
+	default:
+		keys = [][]byte{{x, 1, 2}, {x, 1, 2, 0}, {x, 1, 2, 3}} // (the 4-byte mapper refuses longer keys by contract)
+	}
+	// one of the three is left out of the table
+	absent := vrt.Choose("absent", 3)
+	var wk, wv [][]byte
+	for i, k := range keys {
+		if i != absent {
+			wk = append(wk, k)
+			wv = append(wv, []byte{byte(10 + i)})
+		}
+	}
+	vWriteTable(dir, wk, wv, recordio.CompressionTypeSnappy, recordio.CompressionTypeNone, 64)
+	r, err := NewSSTableReader(ReadBasePath(dir), ReadBufferSizeBytes(16), ReadIndexLoader(vLoader(2, 16)))
+	vrt.Assert(err == nil, "mappadding/open-no-error")
+	for i, k := range keys {
+		c, cerr := r.Contains(k)
+		got, gerr := r.Get(k)
+		if i == absent {
+			vrt.Assert(cerr == nil && !c, "mappadding/absent-key-not-contained")
+			vrt.Assert(errors.Is(gerr, NotFound), "mappadding/absent-key-not-found")
+		} else {
+			vrt.Assert(cerr == nil && c, "mappadding/written-key-is-contained")
+			vrt.Assert(gerr == nil && vrt.EqBytes(got, []byte{byte(10 + i)}), "mappadding/written-key-has-its-own-value")
+		}
+	}
+	r.Close()
+	vrt.TraceBool("done", true)
+	vrt.Reach("mappadding/end")
+}
